@@ -10,3 +10,5 @@ SPEC["props_extra"] = ["props/C09_hub.v"]
 SPEC["streams"] += [dict(imports="From Ship Require Import Base RegRace.", case_type="hid_case", check_fn="check_hubid",
                          drivers=[dict(bin="hubunit", args=["-prop", "C09hub"], n_quick=150, n_thorough=2000)],
                          codes={141: "application_told_ship_id_after_setup", 142: "application_told_ship_id_not_exactly_once"})]
+
+SPEC["manifest"]["text"] += " Third stream, the hub's part of 'before setup': Hub.ReportServiceShipID followed on the same goroutine by Hub.SetupRemoteDevice (the order proved for the connection model) must reach the application as RemoteSKIConnected, ServiceShipIDUpdate, SetupRemoteDevice, the id exactly once (RegRace.v, hid_case). In the hub stream the stored id is set under every spelling of the SKI."
